@@ -401,7 +401,7 @@ func (t *FnTrans) call(x *ssa.Call, c *ssa.CallCommon, st *HeapState, reach stri
 			return
 		}
 	}
-	if con := t.W.contractFor(callee); con != nil {
+	if con := t.W.contractForView(callee, t.view()); con != nil {
 		t.contractCall(x, callee, con, args, st, reach, b, idx)
 		return
 	}
